@@ -21,6 +21,7 @@ import (
 	"sort"
 	"strings"
 	"sync"
+	"time"
 	"unsafe"
 )
 
@@ -126,12 +127,15 @@ type Sched struct {
 	newTasks []*Task
 	stateSet map[uint64]struct{}
 	// statistics
-	Rendezvous int
-	Switches   int
-	lastRun    *Task
-	pctChange  map[int]bool
-	quiesceCnt int
-	Cands      []*Task // candidates of the pending "sched" decision
+	Rendezvous  int
+	Switches    int
+	lastRun     *Task
+	pctChange   map[int]bool
+	quiesceCnt  int
+	Cands       []*Task // candidates of the pending "sched" decision
+	now         int64   // simulated time (ns)
+	timers      []*simTimer
+	TimersFired int
 }
 
 // Policy parameters of the schedule chooser.
@@ -420,6 +424,11 @@ func (sc *Sched) loop() {
 			if sc.enabled(t) {
 				en = append(en, t)
 			}
+		}
+		if len(en) == 0 && sc.fireTimer() {
+			// the clock jumped to the next deadline; somebody may be runnable now
+			running = nil
+			continue
 		}
 		if len(en) == 0 {
 			if len(quiescers) == 0 {
@@ -857,4 +866,123 @@ func Choose(n int, what string) int {
 func Fatal(format string, a ...interface{}) {
 	fmt.Fprintf(os.Stderr, "SIMULATOR-ERROR: "+format+"\n", a...)
 	os.Exit(2)
+}
+
+// ---------------------------------------------------------------------------
+// Simulated time. fsnotify has no timers; these exist so that a change which
+// introduces a timeout is simulated (discrete-event: when nothing else can run,
+// the clock jumps to the earliest deadline) instead of being refused.
+
+type simTimer struct {
+	at      int64
+	ch      chan time.Time
+	fn      func()
+	stopped bool
+	fired   bool
+}
+
+// Timer is the drop-in for time.Timer.
+type Timer struct {
+	C <-chan time.Time
+	t *simTimer
+}
+
+//go:norace
+func newTimer(d time.Duration, fn func()) *Timer {
+	st := &simTimer{at: s.now + int64(d), fn: fn}
+	if fn == nil {
+		st.ch = make(chan time.Time, 1)
+	}
+	s.timers = append(s.timers, st)
+	return &Timer{C: st.ch, t: st}
+}
+
+// NewTimer is time.NewTimer on the simulated clock.
+//
+//go:norace
+func NewTimer(d time.Duration) *Timer { Yield("timer"); return newTimer(d, nil) }
+
+// After is time.After on the simulated clock.
+//
+//go:norace
+func After(d time.Duration) <-chan time.Time { Yield("timer"); return newTimer(d, nil).C }
+
+// AfterFunc is time.AfterFunc on the simulated clock; f runs as a task of its own.
+//
+//go:norace
+func AfterFunc(d time.Duration, f func()) *Timer { Yield("timer"); return newTimer(d, f) }
+
+// Sleep is time.Sleep on the simulated clock.
+//
+//go:norace
+func Sleep(d time.Duration) {
+	t := newTimer(d, nil)
+	Recv(t.C)
+}
+
+// Stop is Timer.Stop.
+//
+//go:norace
+func (t *Timer) Stop() bool {
+	Yield("timer.stop")
+	was := !t.t.stopped && !t.t.fired
+	t.t.stopped = true
+	return was
+}
+
+// Reset is Timer.Reset.
+//
+//go:norace
+func (t *Timer) Reset(d time.Duration) bool {
+	Yield("timer.reset")
+	was := !t.t.stopped && !t.t.fired
+	t.t.stopped, t.t.fired = false, false
+	t.t.at = s.now + int64(d)
+	found := false
+	for _, x := range s.timers {
+		if x == t.t {
+			found = true
+		}
+	}
+	if !found {
+		s.timers = append(s.timers, t.t)
+	}
+	return was
+}
+
+// fireTimer advances the simulated clock to the earliest pending deadline and
+// fires that timer. Reports whether there was one.
+//
+//go:norace
+func (sc *Sched) fireTimer() bool {
+	best := -1
+	for i, t := range sc.timers {
+		if t.stopped || t.fired {
+			continue
+		}
+		if best < 0 || t.at < sc.timers[best].at {
+			best = i
+		}
+	}
+	if best < 0 {
+		return false
+	}
+	t := sc.timers[best]
+	if t.at > sc.now {
+		sc.now = t.at
+	}
+	t.fired = true
+	sc.TimersFired++
+	if t.fn != nil {
+		nt := sc.newTask("timerfunc", "reader")
+		sc.newTasks = append(sc.newTasks, nt)
+		exitWG.Add(1)
+		go taskBody(nt, t.fn)
+	} else {
+		select {
+		case t.ch <- time.Unix(0, sc.now):
+		default:
+		}
+	}
+	return true
 }
